@@ -156,6 +156,8 @@ fn ascii_name() -> impl Strategy<Value = String> {
         1 => proptest::sample::select(vec![
             "NOT", "OMIM", "ORPHA", "DECIPHER", "OMIM:1", "ORPHA:7", "HP:0000001", "is_a", "id", "name", "true", "false", "is_obsolete: true",
             "replaced_by: HP:0000118", "#", "#comment", "database_id", "ncbi_gene_id", "hpo_id", "-", "NA", "0", "Term", "data-version: hp/releases/2020-01-01",
+            // conventions of real HPO releases that a loader might take for markup
+            "obsolete Abnormality of x", "obsolete ", "obsolete", "Obsolete term", "All", "Phenotypic abnormality", "MOVED TO 123456", "REMOVED", "DEPRECATED", "HP:0000118 Phenotypic abnormality",
         ])
         .prop_map(str::to_string),
     ]
